@@ -133,4 +133,27 @@ theorem readMetrics_fail (page : Nat) (healthy : Bytes) (items : List Item) (bad
   unfold readMetrics
   simp [List.mapM_cons, h1, h2, bind, Except.bind]
 
+/-! ## readers on an open represented store; the tail of a crashed writer's file -/
+
+theorem Rep.readers {d es tail} (h : Rep d es tail) (page : Nat) (hp : 4 ≤ page) :
+    readAllValues d = .ok (absOf d) ∧
+    (readAllValuesFromFile page (close d)).map (fun items => items.map fun (x : Item) => (x.1, x.2.1, x.2.2.1))
+      = .ok (absOf d) := by
+  constructor
+  · unfold readAllValues
+    simp only [h.file.raw_ok, bind, Except.bind, h.absOf_eq]
+    exact congrArg _ (scanOut_triples es 8)
+  · simp only [close, h.file.fromFile_ok page hp, Except.map, h.absOf_eq]
+    exact congrArg _ (scanOut_triples es 8)
+
+/-- an entry that was written but not yet published leaves NON-zero bytes beyond `used` (its padding is spaces): the
+zero-tail clause of C10's `WF` does not hold at such a cut, and nothing below needs it -/
+theorem orphan_tail_not_zero (e : Entry) (rest : Bytes) : ¬ ZeroTail (encEntry e ++ rest) := by
+  intro h
+  have hp := (layout (klen e.key)).2.1
+  have hm : (32 : UInt8) ∈ encEntry e ++ rest := by
+    obtain ⟨m, hm⟩ : ∃ m, padLen (klen e.key) = m + 1 := ⟨padLen (klen e.key) - 1, by omega⟩
+    simp [encEntry, hm, List.replicate_succ]
+  exact absurd (h 32 hm) (by decide)
+
 end PromVerif.Lemmas.Mmap
